@@ -335,6 +335,33 @@ class G:
                    ("wrong_arg_type", mut(4, "const fy%d = fh%d([%s])" % (n, n, a)), (4, 4), "fixed-list parameter: one element too few"),
                    ("wrong_return", mut(2, "  return [%s, %s, %s]" % (a, b, extra)), (1, 3), "fixed-list result: one element too many")])
 
+    def t_fn_typed(self):
+        """function-typed positions (parameter, annotated variable, result): the supplied function must have exactly the
+        parameter types and a result the expected one accepts (an optional result does not fit a plain one)"""
+        n = self.uid()
+        base = ["ha%d = fn(cb: fn(int) -> int) -> int {" % n, "  return cb(1)", "}",
+                "hg%d = fn(a: int) -> int {" % n, "  return a + 1", "}",
+                "ho%d = fn(a: int) -> int? {" % n, "  return nil", "}",
+                "hs%d = fn(a: str) -> int {" % n, "  return 1", "}",
+                "h2%d = fn(a: int, b: int) -> int {" % n, "  return a", "}",
+                "hr%d = fn(a: int) -> str {" % n, "  return \"r\"", "}",
+                "hk%d = ha%d(hg%d)" % (n, n, n),
+                "hv%d: fn(int) -> int = hg%d" % (n, n),
+                "hm%d = fn() -> fn(int) -> int {" % n, "  return hg%d" % n, "}",
+                "hw%d: fn(int) -> int? = hg%d" % (n, n)]
+
+        def mut(i, line):
+            m = list(base)
+            m[i] = line
+            return m
+        muts = []
+        for bad, why in (("ho", "result int? where int is expected"), ("hs", "parameter str where int is expected"),
+                         ("h2", "two parameters where one is expected"), ("hr", "result str where int is expected")):
+            muts.append(("wrong_arg_type", mut(18, "hk%d = ha%d(%s%d)" % (n, n, bad, n)), (18, 18), "function argument: " + why))
+            muts.append(("wrong_init", mut(19, "hv%d: fn(int) -> int = %s%d" % (n, bad, n)), (19, 19), "function-typed variable: " + why))
+            muts.append(("wrong_return", mut(21, "  return %s%d" % (bad, n)), (20, 22), "returned function: " + why))
+        return St("function_typed", base, muts)
+
     def t_index_write(self):
         """`a[i] = v` / `a[i] op= v`: the target must be a list or map element of the value's type; a str has no element to replace"""
         n = self.uid()
@@ -452,7 +479,7 @@ class G:
 
     TEMPLATES = ["t_decl_annot", "t_decl_alias", "t_decl_optional", "t_reassign", "t_call1", "t_call2", "t_mcall", "t_field",
                  "t_fn_ret", "t_fn_void", "t_cond_if", "t_cond_while", "t_cond_elseif", "t_index_list", "t_index_map", "t_binop",
-                 "t_unary", "t_map_value", "t_list_elem", "t_class_def", "t_opassign_fit", "t_fn_ret_shapes", "t_fixed_list", "t_obj_field", "t_index_write"]
+                 "t_unary", "t_map_value", "t_list_elem", "t_class_def", "t_opassign_fit", "t_fn_ret_shapes", "t_fixed_list", "t_obj_field", "t_index_write", "t_fn_typed"]
     CONTEXTS = ["top", "function", "closure", "method", "constructor", "if", "else_if", "else", "while", "from"]
 
     # ---------------------------------------------------------------- contexts
